@@ -131,6 +131,17 @@ def gen_reference(rng, wide=False):
             for row in clusters[k]:
                 row[g] = 0
         f32 = True
+    if (not f32) and rng.random() < 0.3 and ncl >= 2:
+        # a cluster of ONE cell far away from a well-populated cluster with spread: no marker may be recorded for the pair,
+        # by either route
+        g = rng.randrange(ng)
+        lone = [[rng.choice([0, 0, 0, 1]) for _ in range(ng)]]
+        lone[0][g] = 0
+        crowd = [[rng.choice([0, 0, 0, 1, 1, 2]) for _ in range(ng)] for _ in range(rng.randint(3, 5))]
+        for i, row in enumerate(crowd):
+            row[g] = [10, 13, 16, 12, 15][i]
+        clusters[0], clusters[1] = lone, crowd
+        exact = False
     faint = (not f32) and rng.random() < 0.12
     if faint:
         # a gene below 1 (log2 CPM) in every cell of two clusters - penetrance 0 in both, differential penetrance 0 - but
